@@ -236,6 +236,8 @@ def _c21_harnesses():
                 names.append(g)
     out = []
     for n in names:
+        if n == "c21_m_finalize_avg":
+            continue  # bit-equality of two f64 dividers: no result in 30 min (measured); the NULL rule is c21_m_finalize_avg_null_rule
         slow = any(t in n for t in _C21_SLOW) and n != "c21_m_finalize_avg_null_rule"
         if "_new_" in n:
             fn, c = "AccumulatorState::new + finalize", "the state of an empty group finalizes to COUNT = 0 / NULL for SUM, AVG, MIN, MAX"
@@ -279,7 +281,7 @@ PROPS["C21"] = {
         "composition over rows / morsels / merge trees is pen and paper (associativity of the abstraction)",
     ],
     "not_under_contract": ["the column loops in process_batch / operators that call update_* once per non-NULL row (Arrow buffers)", "hash path (hash_agg.rs), VectorizedGroupTable, aggregate_scalar_simd, dense-key path, spilled path",
-                           "MIN/MAX update and merge steps and the AVG quotient are decided in the thorough tier only (drop glue of ScalarValue makes each cost ~9 min of CBMC)"],
+                           "on the real ScalarValue type the MIN/MAX update and merge steps are decided in the thorough tier only (drop glue makes each cost ~9 min of CBMC); the quick tier decides them on the carrier instance", "the value of the AVG quotient sum/count (bit-equality of two f64 dividers gives no result in 30 min); its NULL rule and result type are decided"],
     "technique": "Kani proof harnesses in place on the private accumulator state machine, one inductive step per (operation, variant) from an arbitrary state",
     "level_text": "Deductive per step for all scalar values and all states of each variant; the step results compose by induction to every row sequence, batch split and merge order of the morsel path. Other aggregation paths are not under contract (stated).",
     "level_note": "Trusted: Kani/CBMC; ScalarValue::clone stub; bounded float magnitudes; no-overflow assumptions on counters; the loops that feed the accumulators and every non-morsel path are outside.",
@@ -436,18 +438,18 @@ PROPS["C06"] = {
         H(CEX, "c06_lit_f64_fills_register", "CompiledPredicate::eval_chunk (LitF64)", "the literal fills its register; other registers untouched"),
         H(CEX, "c06_arith_f64_add", "CompiledPredicate::eval_chunk (Arith, LitF64)", "Add bit-equal to the IEEE operation; operand registers untouched (magnitudes bounded so results stay finite)", tier="thorough"),
         H(CEX, "c06_arith_f64_sub", "CompiledPredicate::eval_chunk (Arith, LitF64)", "Subtract bit-equal to the IEEE operation", tier="thorough"),
-        H(CEX, "c06_arith_f64_mul", "CompiledPredicate::eval_chunk (Arith, LitF64)", "Multiply bit-equal to the IEEE operation", tier="thorough"),
         H(CEX, "c02_o1_mask_and", "CompiledPredicate::eval_chunk (And)", "d == x & y on 0/1 masks; operands untouched"),
         H(CEX, "c02_o1_mask_or", "CompiledPredicate::eval_chunk (Or)", "d == x | y on 0/1 masks; operands untouched"),
         H(CEX, "c02_o1_mask_not", "CompiledPredicate::eval_chunk (Not)", "d == 1 - x on 0/1 masks; operand untouched"),
     ],
     "harness_timeout": {"quick": "15m", "thorough": "30m"},
+    "jobs": {"thorough": 3},   # the float-arithmetic obligations slow down 3-4x next to 7 other CBMC processes
     "trusted_base": [
         "interpreter comparison semantics = arrow ArrowNativeTypeOp (called as oracle); arrow kernels are position-wise uniform",
         "column-slice shapes read arrow value buffers directly (`arr.values()[start..start+len]`): exercised with literal/register operands only; a 1-row real array costs ~100 s per harness and is not part of the quick tier",
         "QE_COMPILE switch (compilation_enabled) and PredicateEvaluator's fallback order are structural",
     ],
-    "not_under_contract": ["evaluate()'s chunk loop (1024-row chunk boundary) and BooleanBufferBuilder::append_packed_range", "Compiler::boolean/side/num_f64 (which expressions are accepted) — needs arrow Schema construction", "f64 division (float division is beyond the SAT budget)", "find_batch_column"],
+    "not_under_contract": ["evaluate()'s chunk loop (1024-row chunk boundary) and BooleanBufferBuilder::append_packed_range", "Compiler::boolean/side/num_f64 (which expressions are accepted) — needs arrow Schema construction", "f64 multiplication and division kernels (bit-equality of two float multipliers / dividers is beyond the SAT budget: the multiply obligation verifies alone in ~5 min but not reliably next to other harnesses)", "find_batch_column"],
     "technique": "Kani proof harnesses in place on the private eval_chunk kernels, all scalar bit patterns, against the real arrow scalar comparison functions as oracle",
     "level_text": "Deductive per kernel for all inputs (loop bound 2 rows is irrelevant: every row runs the same straight-line code); mismatches between IEEE and total order are the known finding D7.",
     "level_note": "Trusted: Kani/CBMC; arrow's scalar comparison functions as the interpreter's semantics; position-wise uniformity of kernels. Known finding D7 excluded by class.",
